@@ -47,6 +47,8 @@ import (
 	"github.com/AliceO2Group/Control/common/utils/uid"
 	"github.com/AliceO2Group/Control/core/controlcommands"
 	aliexec "github.com/AliceO2Group/Control/executor"
+	"github.com/AliceO2Group/Control/executor/executable"
+	"github.com/AliceO2Group/Control/executor/executorcmd"
 	mesos "github.com/mesos/mesos-go/api/v1/lib"
 	"github.com/mesos/mesos-go/api/v1/lib/encoding"
 	"github.com/mesos/mesos-go/api/v1/lib/executor"
@@ -71,6 +73,15 @@ const (
 	runningDelay = 200 * time.Millisecond
 	// how long after LAUNCH a TASK_RUNNING that a carried-out KILL should have cancelled is still waited for
 	runningWindow = 800 * time.Millisecond
+	// `giveup`: the gRPC dial of ControllableTask.Launch gives up GRPC_DIAL_TIMEOUT after it began (a constant of
+	// the code under test, not adjustable from outside); the launch failure is then reported (TASK_FAILED). How
+	// long that report is waited for: the code's constant plus a generous margin (exceeding it = HANG, reported
+	// only if it reproduces).
+	dialCeiling = executorcmd.GRPC_DIAL_TIMEOUT + 20*time.Second
+	// After the report the Launch goroutine tears the process group down with its TERM/INT/KILL escalation, which
+	// the code bounds by SIGTERM_TIMEOUT + SIGINT_TIMEOUT. The step lasts until nothing of the task is alive, at
+	// most three times that bound; what is alive then is the observation (ALIVE 1), confirmed by a second run.
+	escalationWindow = 3 * (executable.SIGTERM_TIMEOUT + executable.SIGINT_TIMEOUT)
 )
 
 func init() {
@@ -305,6 +316,20 @@ func (r *runner) waitFor(cond func() bool, ceiling time.Duration) bool {
 	}
 }
 
+// waitEvery: waitFor with a coarser poll, for the long waits of `giveup` (tens of seconds, a /proc scan per look).
+func waitEvery(cond func() bool, ceiling, every time.Duration) bool {
+	dl := time.Now().Add(ceiling)
+	for {
+		if cond() {
+			return true
+		}
+		if time.Now().After(dl) {
+			return false
+		}
+		time.Sleep(every)
+	}
+}
+
 func (r *runner) loopEnded() bool { return atomic.LoadInt32(&r.a.loopEnd) == 1 }
 
 // feed hands one event to the event loop and waits until its handler has returned or the loop ended.
@@ -342,7 +367,75 @@ func scriptParts(beh string) (string, []string) {
 		// ignores SIGTERM and SIGINT (and so does everything it starts): only SIGKILL ends it before its time
 		return "trap '' TERM INT; " + pre + wait, []string{"exit", "0"}
 	}
+	if lead, members, ok := groupOf(beh); ok {
+		// a controllable task that never opens its control port and whose process GROUP has members with signal
+		// dispositions of their own (the vh binary as helper, see helperMain); the members are up — dispositions
+		// set — before the leader announces itself
+		h := ""
+		if lead == "ignall" {
+			h = "trap '' TERM INT; "
+		}
+		for _, d := range members {
+			h += envCase + "= " + envDir + "= " + envOCC + "= " + envChild + `=helper:` + d + ` "$C17_VH" & `
+		}
+		h += fmt.Sprintf(`while [ $(ls "$C17_DIR" | grep -c '^helper\.') -lt %d ]; do sleep 0.02; done; `, len(members))
+		return h + pre + wait, []string{"exit", "0"}
+	}
 	return "exit", []string{"0"}
+}
+
+// groupOf: the process group of a controllable task that never becomes ready — how the group LEADER (the command
+// the executor started: the wrapping shell, or the binary exec'd directly) and the other members of the group treat
+// SIGTERM and SIGINT:
+//
+//	obey    dies of SIGTERM (and of SIGINT)
+//	ignterm ignores SIGTERM, dies of SIGINT
+//	ignall  ignores SIGTERM and SIGINT: only SIGKILL ends it
+//
+// `noport` is the group of one (a leader that obeys).
+func groupOf(beh string) (leader string, members []string, ok bool) {
+	switch beh {
+	case "noport":
+		return "obey", nil, true
+	case "noportfork":
+		return "obey", []string{"obey"}, true
+	case "noportkid":
+		return "obey", []string{"ignall"}, true
+	case "noportkidt":
+		return "obey", []string{"ignterm"}, true
+	case "noportign":
+		return "ignall", []string{"ignall"}, true
+	case "noportmix":
+		return "obey", []string{"obey", "ignterm", "ignall"}, true
+	}
+	return "", nil, false
+}
+
+// unready: the behaviours of a controllable task that never opens its control port
+func unready(beh string) bool { _, _, ok := groupOf(beh); return ok }
+
+// helperMain: a member of a task's process group that is not its leader (VH_C17_CHILD=helper:<disposition>, started
+// by the leader without a group of its own). It sets its dispositions, says so (file helper.<pid>), and lives for at
+// most 300 s. SIGINT is taken through os/signal so that the disposition does not depend on how the helper was
+// started (a shell without job control starts `cmd &` with SIGINT ignored).
+func helperMain(disp string) {
+	ch := make(chan os.Signal, 1)
+	switch disp {
+	case "ignall":
+		signal.Ignore(syscall.SIGTERM, syscall.SIGINT)
+	case "ignterm":
+		signal.Ignore(syscall.SIGTERM)
+		signal.Notify(ch, syscall.SIGINT)
+	default:
+		signal.Notify(ch, syscall.SIGINT)
+	}
+	_ = os.WriteFile(filepath.Join(os.Getenv("C17_DIR"), fmt.Sprintf("helper.%d", os.Getpid())), nil, 0o644)
+	select {
+	case <-ch:
+		os.Exit(130)
+	case <-time.After(300 * time.Second):
+	}
+	os.Exit(0)
 }
 
 func script(beh string) string {
@@ -353,7 +446,36 @@ func script(beh string) string {
 // childMain: the same behaviours as the scripts, as a real binary that is exec'd directly without arguments
 // (command shape `ex`: the vh binary itself, told what to do through its environment).
 func childMain(beh string) {
+	if d, ok := strings.CutPrefix(beh, "helper:"); ok {
+		helperMain(d)
+		return
+	}
 	dir := os.Getenv("C17_DIR")
+	if lead, members, ok := groupOf(beh); ok && beh != "noport" {
+		// the same groups as the scripts build: the members first (same process group), then the announcement
+		if lead == "ignall" {
+			signal.Ignore(syscall.SIGTERM, syscall.SIGINT)
+		}
+		self, _ := os.Executable()
+		for _, d := range members {
+			c := exec.Command(self)
+			c.Env = append(os.Environ(), envChild+"=helper:"+d)
+			_ = c.Start()
+		}
+		for {
+			ents, _ := os.ReadDir(dir)
+			n := 0
+			for _, e := range ents {
+				if strings.HasPrefix(e.Name(), "helper.") {
+					n++
+				}
+			}
+			if n >= len(members) {
+				break
+			}
+			time.Sleep(20 * time.Millisecond)
+		}
+	}
 	b, _ := os.ReadFile(filepath.Join(dir, "pids"))
 	n := strings.Count(string(b), "\n") + 1
 	f, err := os.OpenFile(filepath.Join(dir, "pids"), os.O_APPEND|os.O_CREATE|os.O_WRONLY, 0o644)
@@ -398,7 +520,9 @@ func childMain(beh string) {
 func (r *runner) taskInfo() mesos.TaskInfo {
 	tr, fa := true, false
 	tci := common.TaskCommandInfo{}
-	tci.Env = []string{"C17_DIR=" + r.dir}
+	self, _ := os.Executable()
+	// C17_DIR marks everything the task starts (survivors scan); C17_VH is where a script finds the helper binary
+	tci.Env = []string{"C17_DIR=" + r.dir, "C17_VH=" + self}
 	switch r.kind {
 	case "basic":
 		tci.ControlMode = controlmode.BASIC
@@ -414,7 +538,6 @@ func (r *runner) taskInfo() mesos.TaskInfo {
 	if shell {
 		tci.Shell = &tr
 	}
-	self, _ := os.Executable()
 	switch {
 	case r.beh == "nobin":
 		v := filepath.Join(r.dir, "no-such-binary")
@@ -939,8 +1062,11 @@ func runnerMain(input, dir string) {
 
 	ops := in.At(2)
 	sawRunning := func() bool { return a.count(func(x rec) bool { return x.kind == "S" && x.a == "RUNNING" }, 0) > 0 }
+	terminalSeen := func() bool { return a.count(func(x rec) bool { return x.kind == "S" && isTerminal(x.a) }, 0) > 0 }
 	launched := false
 	ticked := false
+	// the go file of the (only) child of a controllable task that is not ready has been written
+	released := false
 	// a KILL was carried out before the timer's position in the schedule and no TASK_RUNNING came afterwards:
 	// the timer has been cancelled, `tick` and the end of the schedule have nothing to wait for
 	timerDead := false
@@ -1129,6 +1255,23 @@ func runnerMain(input, dir string) {
 			a.say("RES %d ok", i)
 		case "await":
 			// let the latest child end on its own
+			if r.kind == "ctl" && !strings.HasPrefix(r.beh, "occ") {
+				// a controllable task that is not ready (still dialling): nobody waits for its command. The group
+				// leader ends (exit 0) and stays a zombie; the other members of its group live on.
+				if r.started == 0 || released || terminalSeen() {
+					a.say("RES %d none", i)
+					break
+				}
+				leader := latestChild(r.dir)
+				_ = os.WriteFile(filepath.Join(r.dir, fmt.Sprintf("go.%d", r.started)), nil, 0o644)
+				released = true
+				if !r.waitFor(func() bool { return !pidLive(leader) }, stepCeiling) {
+					a.say("HANG %d", i)
+					return
+				}
+				a.say("RES %d ok", i)
+				break
+			}
 			if r.started == 0 || (r.kind == "ctl" && !sawRunning()) || a.count(func(x rec) bool { return x.kind == "E" || (r.kind == "ctl" && x.kind == "S" && isTerminal(x.a)) }, r.curMark) > 0 {
 				a.say("RES %d none", i)
 				break
@@ -1141,6 +1284,23 @@ func runnerMain(input, dir string) {
 				a.say("HANG %d", i)
 				return
 			}
+			a.say("RES %d ok", i)
+		case "giveup":
+			// The gRPC dial of ControllableTask.Launch gives up (GRPC_DIAL_TIMEOUT after it began): the launch of a
+			// controllable task whose control port never opened fails. Like `tick`, an asynchronous happening of the
+			// code under test that the schedule gives a position; every other task has no dial in progress.
+			if !launched || r.kind != "ctl" || !unready(r.beh) || r.started == 0 || terminalSeen() {
+				a.say("RES %d none", i)
+				break
+			}
+			if !waitEvery(terminalSeen, time.Until(r.launchT.Add(dialCeiling)), 20*time.Millisecond) {
+				a.say("HANG %d", i)
+				return
+			}
+			// the failure is reported; the Launch goroutine now terminates the task's process group (TERM, INT,
+			// KILL, bounded by the code's two timeouts). The step is over when nothing of the task is alive.
+			_, ids := pidFile(r.dir)
+			waitEvery(func() bool { return len(survivors(r.dir, ids)) == 0 }, escalationWindow, 100*time.Millisecond)
 			a.say("RES %d ok", i)
 		case "par":
 			el := ops.At(j)
